@@ -47,7 +47,7 @@ def gen_cases(tier, seed):
             for i in range(nb if stratum != 'edge' else max(2, nb // 3)):
                 cases.append({'kind': 'acc', 'fn': fn, 'stratum': stratum, 'sub': i, 'seed': seed})
     cases.append({'kind': 'special'})
-    cases.append({'kind': 'dfact'})
+    cases.append({'kind': 'dfact', 'seed': seed})
     for i in range(nb):
         cases.append({'kind': 'sqrtneg', 'sub': i, 'seed': seed})
     for fn in ('csqrt', 'clog', 'cexp', 'hypot', 'cpow', 'cipow', 'dfact'):
@@ -331,11 +331,13 @@ def eval_case(c):
         from TidalPy.utilities.math.special_x import double_factorial
         bad = []
         worst = 0.0
+        first_sweep = {}
         for n in range(0, 171):
             ex = 1
             for k in range(n, 0, -2):
                 ex *= k
             got = double_factorial(n)
+            first_sweep[n] = got
             cnt['mp_comparisons'] += 1
             if got != float(ex):
                 u = abs(got - float(ex)) / math.ulp(float(ex))
@@ -347,6 +349,18 @@ def eval_case(c):
             V('double-factorial-not-correctly-rounded', f'double_factorial(n) is not the correctly rounded n!! for {len(small)} of 171 arguments (errors <= {max(u for _, u in small):.0f} ulp), first n={small[0][0]}', ns=[n for n, _ in small][:20])
         for n, u in big[:3]:
             V('double-factorial-wrong', f'double_factorial({n}) is off by {u:.3g} ulp', n=n)
+        # the value must not depend on what was asked before: ascending reference values against descending, repeated and shuffled call orders
+        asc = [first_sweep[n] for n in range(171)]      # values of the first (ascending) sweep of this process
+        orders = {'ascending-again': list(range(171)), 'descending': list(range(170, -1, -1)), 'repeated': [n for n in range(171) for _ in (0, 1)]}
+        rs = np.random.default_rng([c.get('seed', 0), 20, 91])
+        for i_ in range(6):
+            orders[f'shuffled-{i_}'] = [int(x) for x in rs.permutation(171)]
+        for oname, order in orders.items():
+            wrong = [(n, v) for n, v in ((n, double_factorial(n)) for n in order) if v != asc[n]]
+            cnt['mp_comparisons'] += len(order)
+            if wrong:
+                V('double-factorial-depends-on-call-history', f'double_factorial({wrong[0][0]}) returned {wrong[0][1]!r} in a {oname} sweep but {asc[wrong[0][0]]!r} in the ascending sweep ({len(wrong)} arguments differ)', order=oname)
+                break
         # rejection domain
         for n, exc in ((171, ValueError), (200, ValueError), (255, ValueError), (256, OverflowError), (-1, OverflowError)):
             try:
